@@ -103,6 +103,19 @@ Eval(e, s) ==
                       @@ (IF e.out # <<>> THEN [InterpolatorIsProbesTimesY |-> SuiteInterpolatorIsProbesTimesY(e)] ELSE <<>>),
                info |-> {"Info_SuiteProbe_" \o e.op},
                st |-> s]
+    [] e.a = "PointSourceVec" ->     \* point_source of a vector / tensor valued basis
+         IF ~s.ok \/ s.b = <<>> THEN [cl |-> <<>>, info |-> {"Info_Skipped"}, st |-> s]
+         ELSE LET ct == ContainingAll(s.m, e.pts)
+                  bb == IF e.ypart = "im" THEN [s.b EXCEPT !.y = s.b.y2] ELSE s.b IN
+           IF e.ferr # "" THEN [cl |-> [PointsOfTheDomainAreFound |-> PointsOfTheDomainAreFound(s.m, e.pts, e.ferr, ct),
+                                        BoundaryPointsAreFound |-> BoundaryPointsAreFound(e.pts, e.ferr, ct)],
+                                info |-> {"Info_ProbeFinderRaised"}, st |-> s]
+           ELSE IF e.err # "" THEN [cl |-> [NoUnexpectedError |-> FALSE], info |-> {}, st |-> s]
+           ELSE IF ~PointSourceVecWF(s.m, bb, e) THEN [cl |-> [ProbeWellFormed |-> FALSE], info |-> {}, st |-> s]
+           ELSE [cl |-> [ProbeWellFormed |-> TRUE, NoUnexpectedError |-> TRUE,
+                         FoundCellContainsPoint |-> FoundCellContainsPoint(s.m, e.pts, e.cells, "", ct),
+                         PointSourceIsFirstRowOfProbes |-> PointSourceIsFirstRowOfProbes(s.m, bb, e)],
+                 info |-> {"Info_op_point_source_vector", "Info_coef_" \o e.coef \o "_" \o e.ypart}, st |-> s]
     [] e.a = "Probe" ->
          IF ~s.ok \/ s.b = <<>> THEN [cl |-> <<>>, info |-> {"Info_Skipped"}, st |-> s]
          ELSE LET ct == ContainingAll(s.m, e.pts) IN
